@@ -230,6 +230,31 @@ pub fn run(ctx: &Ctx) -> i32 {
                     5 => cfg.drcra = (cfg.drcra & 0x1f) | (((x >> 16) & 1) as u8) << 5,
                     _ => {} // no change: the same setting costed again
                 }
+                // counter-width class: now and then a *silent burst* - 255/256/257, 511-513 or 65535-65537 register
+                // writes (through Bus::write, each one a real change) without any lookup in between, ending on a
+                // setting that differs from the one last costed: a cost that follows the settings through a
+                // change counter of 8 or 16 bits comes out stale after exactly that many writes
+                if x % 1500 == 7 {
+                    let y = sample(&mut runner, &any32);
+                    let n = [255u32, 256, 257, 511, 512, 513, 65535, 65536, 65537][(y % 9) as usize];
+                    let n = if tier == Tier::Quick && n > 60000 && (y >> 8) % 4 != 0 { 256 } else { n };
+                    let reg = (y >> 4) % 5;
+                    let bit = 1u8 << ((y >> 12) % 8);
+                    for k in 0..n {
+                        // flip one bit back and forth; for an even count the first write flips another bit instead,
+                        // so that an odd number of flips remains and the final setting differs from the one last costed
+                        let alt = k == 0 && n % 2 == 0;
+                        match reg {
+                            0 => cfg.abwcr ^= if alt { bit.rotate_left(1) } else { bit },
+                            1 => cfg.astcr ^= if alt { bit.rotate_left(1) } else { bit },
+                            2 => cfg.wcrh ^= if alt { bit.rotate_left(1) } else { bit },
+                            3 => cfg.wcrl ^= if alt { bit.rotate_left(1) } else { bit },
+                            _ => cfg.drcra ^= if alt { 0x01 } else { 0x20 },
+                        }
+                        emu.set_bus_cfg(&cfg);
+                    }
+                    stats.class("transition walk: silent burst of 255..65537 register writes before the lookup");
+                }
                 let ki = ((x >> 20) % 6) as usize;
                 let own = (x >> 24) & 1 == 1 && !matches!(KINDS[ki], Kind::L | Kind::M);
                 // a lookup somewhere else first (any area, on-chip RAM, I/O registers)
@@ -274,7 +299,7 @@ pub fn run(ctx: &Ctx) -> i32 {
     });
     let mut stats = stats;
     stats.exhaustive_subspaces.insert("area (0-7, on-chip RAM) x width x access-state x wait field x DRAM select x kind x count 1-5 x address x {calc_state, calc_state_with_addr}".into(), stats.nontrivial_keys.len() as u64);
-    let rule = "cases = for each of the eight areas and on-chip RAM: every value of the area's bus-width bit, access-state bit, wait field and the DRAM-area-select field (areas 3-5 only with select 0/1 - others are counted as skipped), all six cycle kinds, counts 1-5, the first / middle / last address of the area outside the on-chip I/O registers, through both calc_state (own-instruction address) and calc_state_with_addr - enumerated completely - each repeated under the all-zero, all-one and proptest-generated settings of all *other* areas' bits plus every one-bit flip of them (independence). Plus a transition walk per shard (300,000 quick / 5,000,000 thorough steps): every step changes at most one bus-controller register (written through Bus::write), then costs a cycle in the shard's area, with lookups anywhere else in the address space in between (history-dependent or late-following costs). Oracle = the cost rule of the statement written as a 10-line function. Non-trivial = every tuple (all differ from the 4 area-0 settings of the unit tests except those 4); distinct = the tuple.";
+    let rule = "cases = for each of the eight areas and on-chip RAM: every value of the area's bus-width bit, access-state bit, wait field and the DRAM-area-select field (areas 3-5 only with select 0/1 - others are counted as skipped), all six cycle kinds, counts 1-5, the first / middle / last address of the area outside the on-chip I/O registers, through both calc_state (own-instruction address) and calc_state_with_addr - enumerated completely - each repeated under the all-zero, all-one and proptest-generated settings of all *other* areas' bits plus every one-bit flip of them (independence). Plus a transition walk per shard (300,000 quick / 5,000,000 thorough steps): every step changes at most one bus-controller register (written through Bus::write), then costs a cycle in the shard's area, with lookups anywhere else in the address space in between (history-dependent or late-following costs), and now and then a silent burst of 255-257 / 511-513 / 65535-65537 register writes without any lookup (change counters of 8 or 16 bits). Oracle = the cost rule of the statement written as a 10-line function. Non-trivial = every tuple (all differ from the 4 area-0 settings of the unit tests except those 4); distinct = the tuple.";
     let mut extra = Map::new();
     extra.insert("exhaustive_over_own_area_tuples".into(), json!(true));
     extra.insert("independence_settings_per_tuple".into(), json!(nrand + 2));
